@@ -514,6 +514,30 @@ class Interp:
                 kwargs.update(v)
             else:
                 raise Unsupported('** of %r' % (v,))
+        return self.invoke(f, args, kwargs, e, site)
+
+    def invoke(self, f, args, kwargs, e=None, site=None):
+        """Call the abstract value f."""
+        if site is None:
+            site = self.shared.get('call')
+        # functools.partial objects
+        if f == ('global', 'functools.partial') and args:
+            return ('partial', args[0], list(args[1:]), dict(kwargs))
+        if isinstance(f, tuple) and len(f) == 4 and f[0] == 'partial':
+            kw = dict(f[3])
+            kw.update(kwargs)
+            return self.invoke(f[1], list(f[2]) + list(args), kw, None,
+                               site)
+        if isinstance(f, tuple) and len(f) == 2 and f[0] == 'global' and \
+                f[1].startswith('operator.') and not kwargs and \
+                not any(isinstance(a, (Sym, Obj, Closure)) for a in args):
+            import operator as _op
+            fn = getattr(_op, f[1][9:], None)
+            if fn is not None:
+                try:
+                    return fn(*args)
+                except Exception as ex:
+                    raise _Raise(type(ex).__name__)
         # short-circuit quantifiers over lazily evaluated comprehensions
         if f == ('builtin', 'any'):
             for x in self.iterate(args[0], force=False):
@@ -551,6 +575,8 @@ class Interp:
             if name == 'isinstance':
                 if self.isinstance_oracle is None:
                     raise Unsupported('isinstance')
+                if e is None:
+                    raise Unsupported('isinstance through an indirect call')
                 return self.isinstance_oracle(args[0], e.args[1])
             fn = BUILTINS.get(name)
             args = [a.attrs['__items__'] if isinstance(a, Obj) and
